@@ -575,3 +575,37 @@ Print Assumptions C15_string_is_step.
 Print Assumptions C15_order_invariant_strings.
 Print Assumptions C15_chiral_text_reaches_returned_graph.
 Print Assumptions C15_parse_x_R.
+
+(** the chain family  A_n = [$]=C(Cl)/C C^n,  B_m = [$]=C(Br)/C C^m  (cut at the stereo double bond, both marked ligands
+    written after their anchors): [family_okb n m] is the conjunction of the decidable forms of every hypothesis of
+    C15_order_invariant_strings for the cut [chain_cut n m]; a member that passes it has the order property
+    (C15_chain_family_member: unbounded in n, m, conditional on the check), and all members with n, m <= 12 pass
+    (BOUNDED, vm_compute over 169 instances) *)
+Theorem C15_chain_family_member : forall n m o1 o2, family_okb n m = true ->
+  let C1 := chain_cut n m in let C2 := swap_parts C1 in
+  let tA := FragText.render (decorate (toksX "Cl" n) (dcl n)) in let tB := FragText.render (decorate (toksX "Br" m) (dcl m)) in
+  resolve_string EzStringExamples.fo0 (sAB tA tB) = Ok o1 -> resolve_string EzStringExamples.fo0 (sBA tA tB) = Ok o2 ->
+  exists m1 m2, sort_mapping (fo_m4 o1) = Ok m1 /\ sort_mapping (fo_m4 o2) = Ok m2 /\
+    forall lx ax ay ly c1 c2 k1 k2, In lx (flat C1) -> In ax (flat C1) -> In ay (flat C1) -> In ly (flat C1) ->
+      owner C1 lx = owner C1 ax -> owner C1 ly = owner C1 ay -> wb C1 lx ax = false -> wb C1 ly ay = false ->
+      is_new (fo_m5 o1) (fo_mol o1) k1
+        (ez_tuple (map_get m1 (phi C1 lx)) (map_get m1 (phi C1 ax)) (map_get m1 (phi C1 ay)) (map_get m1 (phi C1 ly)) c1) ->
+      is_new (fo_m5 o2) (fo_mol o2) k2
+        (ez_tuple (map_get m2 (phi C2 lx)) (map_get m2 (phi C2 ax)) (map_get m2 (phi C2 ay)) (map_get m2 (phi C2 ly)) c2) ->
+      c1 = c2.
+Proof. exact family_member. Qed.
+Theorem C15_chain_family_order_invariant_bounded : forall n m o1 o2, (n <= 12)%nat -> (m <= 12)%nat ->
+  let C1 := chain_cut n m in let C2 := swap_parts C1 in
+  let tA := FragText.render (decorate (toksX "Cl" n) (dcl n)) in let tB := FragText.render (decorate (toksX "Br" m) (dcl m)) in
+  resolve_string EzStringExamples.fo0 (sAB tA tB) = Ok o1 -> resolve_string EzStringExamples.fo0 (sBA tA tB) = Ok o2 ->
+  exists m1 m2, sort_mapping (fo_m4 o1) = Ok m1 /\ sort_mapping (fo_m4 o2) = Ok m2 /\
+    forall lx ax ay ly c1 c2 k1 k2, In lx (flat C1) -> In ax (flat C1) -> In ay (flat C1) -> In ly (flat C1) ->
+      owner C1 lx = owner C1 ax -> owner C1 ly = owner C1 ay -> wb C1 lx ax = false -> wb C1 ly ay = false ->
+      is_new (fo_m5 o1) (fo_mol o1) k1
+        (ez_tuple (map_get m1 (phi C1 lx)) (map_get m1 (phi C1 ax)) (map_get m1 (phi C1 ay)) (map_get m1 (phi C1 ly)) c1) ->
+      is_new (fo_m5 o2) (fo_mol o2) k2
+        (ez_tuple (map_get m2 (phi C2 lx)) (map_get m2 (phi C2 ax)) (map_get m2 (phi C2 ay)) (map_get m2 (phi C2 ly)) c2) ->
+      c1 = c2.
+Proof. exact chain_family_order_invariant_bounded. Qed.
+Print Assumptions C15_chain_family_member.
+Print Assumptions C15_chain_family_order_invariant_bounded.
